@@ -10,7 +10,7 @@
 From Coq Require Import String.
 From Coq Require Import ZArith List Bool Lia.
 From IBL.lib Require Import PyInt.
-From IBL.C01 Require Import Model Proofs Geometry AlignProofs SyncProofs.
+From IBL.C01 Require Import Model Proofs Geometry Gains AlignProofs SyncProofs Bisect.
 Require IBL.C08.Model IBL.C08.Proofs IBL.C08.Props.
 Require IBL.C03.F32.
 From Coq Require Import Permutation.
@@ -274,6 +274,32 @@ Proof.
 Qed.
 Print Assumptions C01_nidq_gain_alignment.
 
+(* mtscomp's own assertions in _chunks_for_interval hold on the calls the reader makes
+   (so not modelling them loses nothing): for chunk bounds 0 = b0 <= .. <= bk = ns and a
+   non-empty clipped interval i0 < i1 <= ns, 0 <= first <= last <= n_chunks - 1,
+   bounds[first] <= i0 and i1 <= bounds[last + 1]. *)
+Theorem C01_mtscomp_assertions_hold : forall bounds n i0 i1 first last,
+  bounds_ok bounds n -> 0 <= i0 < i1 -> i1 <= n ->
+  chunks_for_interval bounds n i0 i1 = (first, last) ->
+  0 <= first <= last /\ last + 1 < zlen bounds /\
+  bound bounds first <= i0 /\ i1 <= bound bounds (last + 1).
+Proof. exact chunks_facts. Qed.
+Print Assumptions C01_mtscomp_assertions_hold.
+
+(* CPython's bisect.bisect_right — the binary search, modelled literally (Bisect.bsearch) —
+   equals the model's bisect_right (number of leading elements <= x) on every sorted list, from
+   any start lo below which all elements are <= x; and _chunks_for_interval computed with the
+   real binary search is the model's chunks_for_interval on every valid chunk table.  This
+   discharges the former assumption "bisect_right = count of leading bounds <= x". *)
+Theorem C01_bisect_right_is_binary_search :
+  (forall a x lo, sorted a -> 0 <= lo <= zlen a ->
+     (forall i v, 0 <= i < lo -> zget a i = Some v -> v <= x) ->
+     bisect_right_bin a x lo = bisect_right a x lo) /\
+  (forall bounds n i0 i1, bounds_ok bounds n -> 0 <= i0 < i1 -> i1 <= n ->
+     chunks_for_interval_bin bounds n i0 i1 = chunks_for_interval bounds n i0 i1).
+Proof. split; [exact bisect_bin_eq|exact chunks_bin_eq]. Qed.
+Print Assumptions C01_bisect_right_is_binary_search.
+
 (* ---- refuted clauses (faithful model; confirmed on the real code, see notes) ---- *)
 Definition ex_raw : list (list (Z * Z)) :=
   map (fun i => map (fun c => (i, c)) [0; 1; 2]) [0; 1; 2; 3].
@@ -314,3 +340,57 @@ Example C01_example_read :
     = Ok (Some (false, false, 3, [[(1, 2, 2); (1, 0, 0); (1, 1, 1)]; [(2, 2, 2); (2, 0, 0); (2, 1, 1)]])) /\
   getitem ex_cal None ex_raw 3 [2; 0; 1] [0; 1; 2] (ITuple [SInt 0; SInt 0; SInt 0]) = Ok None.
 Proof. repeat split; try (repeat constructor; lia). Qed.
+
+(* hypotheses of C01_read_both_invalid_raise / C01_read_outer on a concrete recording *)
+Example C01_example_invalid_and_outer :
+  sel_positions 4 (SInt 7) = Err EIndex /\ sel_positions 3 (SSlice None None (Some 0)) = Err EValue /\
+  read ex_cal None ex_raw 3 [2; 0; 1] [0; 1; 2] (SInt 7) (SSlice None None (Some 0)) = Err EValue /\
+  sel_positions 4 (SList [3; -4]) = Ok (false, [3; 0]) /\ sel_positions 3 (SList [-1; 0]) = Ok (false, [2; 0]) /\
+  read ex_cal None ex_raw 3 [2; 0; 1] [0; 1; 2] (SList [3; -4]) (SList [-1; 0])
+    = Ok (false, false, 2, [[(3, 1, 1); (3, 2, 2)]; [(0, 1, 1); (0, 2, 2)]]).
+Proof. repeat split. Qed.
+
+(* hypotheses of C01_sorted_alignment: an NP2.4 table of 6 sites cycling through shanks 0,1,2
+   (imro order), 7 channels on disk (6 sites + sync): the model's geometry index and the
+   reader's channel order — a 3-cycle structure, not an involution *)
+Definition ex_sites : list G8.site :=
+  [(0, 0, 0, 1); (1, 0, 0, 1); (2, 0, 0, 1); (0, 1, 1, 1); (1, 1, 1, 1); (2, 1, 1, 1)].
+Example C01_example_alignment :
+  exists t' inds, G8.geometry G8.NP24 G8.ShankMap ex_sites None true = Some (t', inds) /\
+    inds = [0; 3; 1; 4; 2; 5] /\ zlen inds <= 7 /\
+    reader_order 7 (Some inds) = Some [0; 3; 1; 4; 2; 5; 6] /\
+    reader_channel_order 7 (Some G8.NP24) (Some G8.ShankMap) ex_sites None true = Some [0; 3; 1; 4; 2; 5; 6] /\
+    reader_channel_order 7 (Some G8.NP24) (Some G8.ShankMap) ex_sites None false = Some [0; 1; 2; 3; 4; 5; 6] /\
+    reader_channel_order 2 None None [] None true = Some [0; 1].
+Proof. eexists. eexists. split; [vm_compute; reflexivity|]. repeat split; vm_compute; congruence. Qed.
+
+(* hypotheses of C01_cbin_eq_bin on a concrete chunked recording (bounds_ok: C01_example_bounds_ok) *)
+Example C01_example_cbin :
+  1 <= zlen ex_raw /\
+  read ex_cal (Some [0; 2; 4]) ex_raw 3 [2; 0; 1] [0; 1; 2] (SSlice (Some (-3)) None (Some 2)) (SInt (-1))
+    = read ex_cal None ex_raw 3 [2; 0; 1] [0; 1; 2] (SSlice (Some (-3)) None (Some 2)) (SInt (-1)) /\
+  read ex_cal None ex_raw 3 [2; 0; 1] [0; 1; 2] (SSlice (Some (-3)) None (Some 2)) (SInt (-1))
+    = Ok (false, true, 1, [[(1, 1, 1)]; [(3, 1, 1)]]) /\
+  chunks_for_interval [0; 2; 4] 4 1 4 = (0, 1).
+Proof. repeat split; vm_compute; congruence. Qed.
+
+(* hypotheses of C01_nidq_gain_alignment: a nidq meta with NO digital word (2 MN, 1 MA, 2 XA) *)
+Definition ex_nidq_file : M9.str :=
+  M9.lit ("typeThis=nidq" ++ T9.nl ++ "niAiRangeMax=5" ++ T9.nl ++ "niMNGain=200" ++ T9.nl ++
+          "niMAGain=2.5" ++ T9.nl ++ "snsMnMaXaDw=2,1,2,0" ++ T9.nl ++ "nSavedChans=5" ++ T9.nl ++
+          "niSampRate=30003.0003" ++ T9.nl)%string.
+Example C01_example_nidq_gains : exists d, M9.read_meta ex_nidq_file = Some d /\
+  M9.int2volt d = Some ((5, O), 32768) /\ M9.lookup (M9.lit "imroTbl"%string) d = None /\
+  M9.lookup (M9.lit "niMNGain"%string) d = Some (M9.VNum (200, O)) /\
+  M9.lookup (M9.lit "niMAGain"%string) d = Some (M9.VNum (25, 1%nat)) /\
+  M9.lookup (M9.lit "snsMnMaXaDw"%string) d = Some (M9.VList [(2, O); (1, O); (2, O); (0, O)]) /\
+  M9.get_type d = Some (Some M9.SNidq) /\
+  reader_gains ex_nidq_file =
+    Some ((5, O), 32768, [M9.CG (200, O); M9.CG (200, O); M9.CG (25, 1%nat); M9.CG (1, O); M9.CG (1, O)]).
+Proof. eexists. split; [vm_compute; reflexivity|]. repeat split; vm_compute; reflexivity. Qed.
+
+(* the binary search on a concrete table *)
+Example C01_example_bisect :
+  bisect_right_bin [0; 3; 3; 7; 10] 3 0 = 3 /\ bisect_right [0; 3; 3; 7; 10] 3 0 = 3 /\
+  bisect_right_bin [0; 3; 3; 7; 10] 9 2 = 4 /\ chunks_for_interval_bin [0; 3; 7; 10] 10 2 8 = (0, 2).
+Proof. repeat split. Qed.
